@@ -151,14 +151,15 @@ PROPS = {
     },
     "C10": {
         "level": "proof",
-        "rules": [("SP", 17, None), ("IM", 9, has("IM5")), ("HE", 3, has("scratch-private")), ("GL", 9, has("GL6", "GL9"))],
+        "rules": [("SP", 17, None), ("IM", 9, has("IM5")), ("HE", 3, has("scratch-private")), ("GL", 9, has("GL6", "GL9")),
+                  ("DP", 2, has("unsmoothed_wmc:fold", "evaluate:via-count"))],
         "explanation": "Structural proof of 'every per-node scratch slot is empty again when a public call returns', for all "
                        "call sequences: the only per-node mutable state is the two private RefCell fields (HE), the scratch "
                        "cell is written only by set_scratch/clear_scratch and semantic_hash only by cached_semantic_hash (IM5); "
                        "no externally reachable function is leaky (SP1, interprocedural must-pass-through over the call "
                        "graph); what a BDD traversal descends below is marked, so the short-circuiting clear is complete "
                        "(SP2); memo read/write types agree (SP3). Trusted: unwinding ignored (a panicking user callback leaves "
-                       "scratch set). Not decided: which answer is returned. Added: should an SDD clear_scratch start to short-circuit on its own slot, every SDD traversal must mark each node it descends from (SP2 extended; today the SDD clear descends unconditionally).",
+                       "scratch set). Not decided: which answer is returned. Added: should an SDD clear_scratch start to short-circuit on its own slot, every SDD traversal must mark each node it descends from (SP2 extended; today the SDD clear descends unconditionally). Added after the fourth seeding round: the count and evaluate are *exactly* a fold of the diagram with a callback that reads only the weights (DP unsmoothed_wmc:fold, evaluate:via-count) — a count that first consults any other state (a last-result memo in the weight object) is not that term.",
         "assumptions": ["panics/unwinding are not modelled", "call-graph resolution by rustc Instance::try_resolve; generic trait calls dispatch to all local impls"],
     },
     "C11": {
